@@ -117,7 +117,7 @@ func finalizeAndRespond(r responder.Responder, resp io.Reader, status int, req *
 	written, err := r.Write(status, body)
 	if err != nil {
 		slog.Error("Error writing response", "url", req.URL, "error", err)
-		return err
+		return fmt.Errorf("%w: %v", ErrClientResponseFailed, err)
 	}
 
 	metrics.Global.Requests.BytesServed.Add(written)
@@ -361,6 +361,11 @@ func (p *Proxy) handleCONNECT(r responder.Responder, proxyReq *http.Request) err
 		// Content-Length of the response it builds, which must not carry over to the next exchange.
 		if err := p.handleHTTP(responder.NewRawHTTPResponder(tlsConn), req); err != nil {
 			slog.Error("Error processing HTTP request in CONNECT tunnel", "host", proxyReq.Host, "error", err)
+			if errors.Is(err, ErrClientResponseFailed) {
+				// The response was only partly written (for example the upstream body broke off): the
+				// stream is no longer in sync, so the tunnel is closed instead of leaving the client waiting.
+				break
+			}
 		}
 	}
 
